@@ -350,6 +350,8 @@ struct Ctl {
     release: bool,
     a_done: bool,
     b_done: bool,
+    /// label of the write (or read point) the first operation is suspended at
+    label: String,
 }
 
 fn wait_until<F: Fn(&Ctl) -> bool>(ctl: &Arc<(Mutex<Ctl>, Condvar)>, f: F, ms: u64) -> bool {
@@ -360,14 +362,14 @@ fn wait_until<F: Fn(&Ctl) -> bool>(ctl: &Arc<(Mutex<Ctl>, Condvar)>, f: F, ms: u
 }
 
 /// Runs A and B on two threads; A pauses before its k-th write (k = 0: never).  Returns (paused, blocked, deadlock).
-fn run_concurrent(s: &mut Setup, a: Raw, b: Raw, k: usize, rd_out: &Arc<Mutex<Option<Value>>>) -> (bool, bool, bool) {
+fn run_concurrent(s: &mut Setup, a: Raw, b: Raw, k: usize, rd_out: &Arc<Mutex<Option<Value>>>) -> (bool, bool, bool, String) {
     let pause_kind: &'static str = if matches!(a, Raw::Read(_)) { "read" } else { "write" };
     let scripts_for_read: Vec<packed::Script> = s.sim.chain.scripts.clone();
     let chain_ids: HashMap<packed::Byte32, i64> = s.sim.chain.blocks.iter().map(|b| (b.header.hash(), b.id as i64 + 1)).collect();
     let ctl: Arc<(Mutex<Ctl>, Condvar)> = Arc::new((Mutex::new(Ctl::default()), Condvar::new()));
     {
         let ctl = Arc::clone(&ctl);
-        crate::verif_hooks::set(Some(Arc::new(move |kind: &'static str, _label: &str| {
+        crate::verif_hooks::set(Some(Arc::new(move |kind: &'static str, label: &str| {
             if kind != pause_kind || ROLE.with(|r| r.get()) != 1 {
                 return;
             }
@@ -376,6 +378,7 @@ fn run_concurrent(s: &mut Setup, a: Raw, b: Raw, k: usize, rd_out: &Arc<Mutex<Op
             g.writes_a += 1;
             if g.writes_a == k {
                 g.paused = true;
+                g.label = label.to_owned();
                 cv.notify_all();
                 let _g = cv.wait_timeout_while(g, Duration::from_secs(20), |c| !c.release).unwrap();
             }
@@ -479,7 +482,8 @@ fn run_concurrent(s: &mut Setup, a: Raw, b: Raw, k: usize, rd_out: &Arc<Mutex<Op
         }
     });
     crate::verif_hooks::set(None);
-    result
+    let label = ctl.0.lock().unwrap().label.clone();
+    (result.0, result.1, result.2, label)
 }
 
 fn count_writes<F: FnOnce()>(f: F) -> usize {
@@ -640,7 +644,7 @@ pub fn run(kv: &HashMap<String, String>) -> i32 {
                 let ra = raw(&mut s3, a);
                 let rb = raw(&mut s3, b);
                 let rd_out: Arc<Mutex<Option<Value>>> = Arc::new(Mutex::new(None));
-                let (paused, blocked, deadlock) = run_concurrent(&mut s3, ra, rb, k, &rd_out);
+                let (paused, blocked, deadlock, label) = run_concurrent(&mut s3, ra, rb, k, &rd_out);
                 if blocked {
                     blocked_n += 1;
                 } else if paused {
@@ -648,7 +652,7 @@ pub fn run(kv: &HashMap<String, String>) -> i32 {
                 }
                 let ev = if deadlock { "Deadlock" } else { "Concurrent" };
                 let rd = rd_out.lock().unwrap().clone().unwrap_or(json!({"sk": 0, "cap": 0, "tip": 0, "tipNum": 0}));
-                s3.sim.step(ev, json!({"exp": exp, "a": a.name(), "b": b.name(), "k": k, "paused": paused, "blocked": blocked, "rd": rd}), |_| Ok(()));
+                s3.sim.step(ev, json!({"exp": exp, "a": a.name(), "b": b.name(), "k": k, "paused": paused, "blocked": blocked, "label": label, "rd": rd}), |_| Ok(()));
                 let t3 = take_buf(&s3);
                 lines += t3.iter().filter(|c| **c == b'\n').count() as u64;
                 out.write_all(&t3).unwrap();
